@@ -13,6 +13,7 @@ PROPERTY PUpdate
 PROPERTY PReadOnly
 PROPERTY PCheckout
 PROPERTY PInputsKept
+PROPERTY PPackagefiles
 PROPERTY PBadInvocation
 PROPERTY POutcomeRelation
 PROPERTY PPurgeAnnounces
